@@ -84,7 +84,7 @@ def replay_file(path):
     body = json.load(open(path if os.path.isabs(path) else os.path.join(ROOT, path)))
     print('obligation', body['obligation'], 'function', body['function'], 'case', body['case'])
     if body.get('twin'):
-        from bounded import twins
+        from bounded import registry as twins
         return twins.replay(body)
     r = body.get('refute') or {}
     if 'params' not in r:
